@@ -585,7 +585,9 @@ class _VersionIndependentUnmarshaller:
                 )
                 co_exceptiontable = self.r_object(bytes_for_s=bytes_for_s)
             else:
-                co_lnotab = self.r_object(bytes_for_s=bytes_for_s)
+                # The line table is binary data, like co_code: never try
+                # to decode it as text (Python 2 stores it as a str).
+                co_lnotab = self.r_object(bytes_for_s=True)
         else:
             # < 1.5 there is no lnotab, so no firstlineno.
             # SET_LINENO is used instead.
